@@ -79,6 +79,9 @@ func c15Specs() []c15Spec {
 		{name: "S-M", desc: "2 connections logging in to the SAME account at the same time, one with the right and one with a wrong password followed by a pipelined Query (each is judged by its own password)", auth: true,
 			conns: []c15Conn{{"c1", [][]byte{pgproto.Startup("user", "alice", "database", "db-a"), pgproto.Password("pw-alice"), pgproto.Query("whoami")}},
 				{"c2", [][]byte{pgproto.Startup("user", "alice", "database", "db-a"), pgproto.Cat(pgproto.Password("wrong"), pgproto.Query("whoami"))}}}},
+		{name: "S-O", desc: "both connections send a message larger than the limit (it is skipped) and then a query whose handler reads the connection's parameters",
+			conns: []c15Conn{{"c1", [][]byte{st("u1"), pgproto.Msg('Q', make([]byte, 5000)), pgproto.Query("whoami"), pgproto.Query("1:r,c=T1")}},
+				{"c2", [][]byte{st("u2"), pgproto.Msg('Q', make([]byte, 6000)), pgproto.Query("whoami"), pgproto.Query("int4row")}}}},
 		{name: "S-G", desc: "2 connections authenticating with cleartext passwords as different users (startup packets and password messages interleave)", auth: true,
 			conns: []c15Conn{{"c1", [][]byte{pgproto.Startup("user", "alice", "database", "db-a"), pgproto.Password("pw-alice"), pgproto.Query("whoami")}},
 				{"c2", [][]byte{pgproto.Startup("user", "bob", "database", "db-b"), pgproto.Password("pw-bob"), pgproto.Query("whoami")}}}},
